@@ -1,19 +1,21 @@
 """C02 — built IR is well-formed, strictly dominated, consistently typed SSA.
 
-Lean: Verif/C02/{Model,Spec,Check,Theorems,Driver,Main}.lean.
-  Spec.lean      `WF : FnDump -> Prop`, the declarative statement for one built function: shape /
-                 bookkeeping, Preds-Succs inverse (multiset), terminators + arity, phis, STRICT SSA with
-                 path-quantified dominance (Verif.C14.DomFrom over Succs + virtual edge entry->Recover),
-                 Operands-Referrers inverse, typing table (one row per instruction kind).
+Lean: Verif/C02/{Model,Spec,Check,Sorting,Theorems,Driver,Main}.lean.
+  Spec.lean      `WF : FnDump -> Prop`, nine clauses: shape / bookkeeping, Preds-Succs inverse (multiset), terminators + arity,
+                 phis, STRICT SSA with path-quantified dominance (Verif.C14.DomFrom over Succs + virtual edge entry->Recover),
+                 Operands-Referrers inverse, typing table (a row for all 46 instruction kinds), operands_complete
+                 (Operands() = the ir.Value fields of the struct, as multisets), func_ok (Params/FreeVars/Locals vs Signature).
   Check.lean     `wfCheck : FnDump -> Bool`, the validator.
-  Theorems.lean  `wfCheck_sound : wfCheck f = true -> WF f` for all dumps; readable corollaries.
-Tie: V (verified validator).  harness/cmd/c02dump builds packages with the real go/ir builder of the
-tree under test under every combination of {naive|lifted} x GlobalDebug x InstantiateGenerics x
-BuildSerially and dumps every function irutil.AllFunctions finds through the exported API; the compiled,
-proved validator runs on every dump.  A rejected function is a candidate violation: the replay names
-the clause and the offending use/def (or instruction), plus the IR text of the function.
+  Theorems.lean  `wfCheck_iff : wfCheck f = true <-> WF f` for all dumps (sound AND complete); readable corollaries.
+  Sorting.lean   the sorting helpers of the validator are verified (permutation, sorted, canonical).
+Tie: V (verified validator).  harness/cmd/c02dump builds packages with the real go/ir builder of the tree under test under
+every combination of {naive|lifted} x GlobalDebug x InstantiateGenerics x BuildSerially and dumps every function
+irutil.AllFunctions finds; the compiled, proved validator runs on every dump.  A rejected function violates WF: the replay
+names the clause and the offending instruction, plus the IR text of the function.
+Inputs: corpus, go/ir testdata, seeded random generator (Gen), the exhaustive grid (GRID_*: operand slot x expression x
+context, ill-typed candidates dropped by c02dump -funcs and counted), real packages.
 Also: no builder panic / hang in any mode, and no `mustSanityCheck` panic with SanityCheckFunctions on.
-Level: translation_validation (WF proved per accepted dump, for all paths; programs x modes explored).
+Level: translation_validation (WF decided per dump, for all paths; programs x modes explored).
 """
 import itertools
 import json
@@ -29,18 +31,25 @@ import vlib
 
 MODULES = ["Verif.C02.Theorems"]
 THEOREMS = [
+    "Verif.C02.wfCheck_iff",
     "Verif.C02.wfCheck_sound",
-    "Verif.C02.wfCheck_complete_partial",
+    "Verif.C02.wfCheck_complete",
     "Verif.C02.domX_iff",
     "Verif.C02.wfCheck_eq_clauses",
     "Verif.C02.allKinds_complete",
     "Verif.C02.def_on_every_path",
     "Verif.C02.phi_def_on_every_path",
+    "Verif.C02.field_operand_checked",
+    "Verif.C02.field_operand_legit",
+    "Verif.C02.params_match_signature",
     "Verif.C02.cfg_exact",
     "Verif.C02.refs_exact",
     "Verif.C02.closedOK_sound",
     "Verif.C02.msort_perm",
+    "Verif.C02.msort_sorted",
+    "Verif.C02.msort_canon",
     "Verif.C02.mem_canonSet",
+    "Verif.C02.canonSet_eq_iff",
 ]
 CORPUS = os.path.join(vlib.VERIF, "corpus", "C02")
 
@@ -565,7 +574,530 @@ def gen_sources(ctx, nfiles, per_file, tag):
     return files, texts, hist
 
 
+# ======================================================================= exhaustive grid
+# Every expression form that creates control flow of its own (short-circuit operators, function
+# literals called in place, calls with such arguments) and every conversion-relevant expression
+# form, in every operand slot of every statement form, inside every surrounding context.
+# The combinations are not filtered by the generator: c02dump -funcs type-checks every candidate
+# function in-process and drops (and counts) the ones that do not compile.
+GRID_PRELUDE = '''package p
+
+type T struct {
+	a, b int
+	s    string
+	p    *int
+	n    *T
+}
+
+type U struct {
+	T
+	k [4]int
+	m map[string]int
+}
+
+type I interface{ M(int) int }
+
+type N int
+type Strs []string
+type Ints []int
+type Anys []any
+type Fn func(int) int
+type Ch chan int
+
+func (t T) M(x int) int       { return t.a + x }
+func (t *T) P(x int) int      { t.a += x; return t.b }
+func (t *T) V(xs ...int) int  { return len(xs) + t.a }
+func (n N) M(x int) int       { return int(n) * x }
+func (u *U) Q() (int, error)  { return u.a, nil }
+
+type Num interface{ ~int | ~int64 | ~uint8 }
+
+func id[X any](v X) X { return v }
+func sum[X Num](xs []X) (t X) {
+	for _, x := range xs {
+		t += x
+	}
+	return
+}
+func mapf[A, B any](xs []A, f func(A) B) []B {
+	var out []B
+	for _, x := range xs {
+		out = append(out, f(x))
+	}
+	return out
+}
+
+type Box[X any] struct{ v X }
+
+func (b *Box[X]) Get() X       { return b.v }
+func (b *Box[X]) Set(v X)      { b.v = v }
+func conv[A Num, B Num](a A) B { return B(a) }
+func first[S ~[]E, E any](s S) (e E) {
+	if len(s) > 0 {
+		e = s[0]
+	}
+	return
+}
+func pick[X any](c bool, x, y X) X {
+	if c {
+		return x
+	}
+	return y
+}
+
+func g(x int) int               { return x + 1 }
+func g3(x int) (int, bool)      { return x, x > 0 }
+func add(x, y int) int          { return x + y }
+func b1(x int) bool             { return x > 0 }
+func bi(c bool) int             { if c { return 1 }; return 0 }
+func bs(c bool) string          { if c { return "t" }; return "f" }
+func use(vs ...any)             {}
+func usei(xs ...int) int        { return len(xs) }
+func usei2(x int, ys ...int) int { return x + len(ys) }
+func uses(xs ...string) int     { return len(xs) }
+func gen(n int) func(func(int) bool) {
+	return func(y func(int) bool) {
+		for i := 0; i < n; i++ {
+			if !y(i) {
+				return
+			}
+		}
+	}
+}
+
+var G int
+var GP *int
+'''
+
+GRID_LOCALS = [("x0", "int"), ("x1", "int"), ("s0", "string"), ("sl", "[]int"), ("t0", "T"), ("u0", "U"), ("pp", "*int"),
+               ("f0", "func(int) int"), ("i0", "any"), ("arr", "[4]int"), ("n0", "N"), ("by", "[]byte"), ("fl", "float64"),
+               ("it", "I"), ("bx", "Box[int]"), ("chs", "[]chan int")]
+
+# (name, type tag, text).  Tags select the slots an expression is tried in; the Go type checker
+# has the last word.
+GRID_EXPRS = [
+    ("and", "bool", "p && q"),
+    ("or", "bool", "p || b1(a)"),
+    ("andor", "bool", "(p && a > 0) || (q && b1(b))"),
+    ("nand", "bool", "!(p && q)"),
+    ("litb", "bool", "func() bool { return p && q }()"),
+    ("cmpand", "bool", "a > b && s != s0"),
+    ("bi_and", "int", "bi(p && q)"),
+    ("bi_or", "int", "bi(p || q) + g(a)"),
+    ("liti", "int", "func() int { if p { return a }; return b }()"),
+    ("min", "int", "min(a, bi(q || p), 3)"),
+    ("max", "int", "max(a, b)"),
+    ("gen_and", "int", "id(bi(p && q))"),
+    ("pick", "int", "pick(p && q, a, b)"),
+    ("first", "int", "first(xs)"),
+    ("recv", "int", "<-ch"),
+    ("idx", "int", "xs[bi(p && q)]"),
+    ("nconv", "int", "int(N(a))"),
+    ("plain", "int", "a"),
+    ("bs_and", "string", "bs(p && q)"),
+    ("lits", "string", 'func() string { if p { return s }; return "x" }()'),
+    ("sconv", "string", "string(rune(bi(p || q)))"),
+    ("picksl", "[]int", "pick(p || q, xs, sl)"),
+    ("litsl", "[]int", "func() []int { if p && q { return xs }; return nil }()"),
+    ("slice3", "[]int", "xs[a:b:bi(p && q)]"),
+    ("ints", "Ints", "Ints(pick(p && q, xs, sl))"),
+    ("anys", "Anys", "Anys{bi(p && q), s}"),
+    ("strs", "Strs", "Strs{bs(p || q)}"),
+    ("sany", "[]any", "[]any{p && q, a}"),
+    ("any_and", "any", "any(p && q)"),
+    ("tlit", "T", "T{a: bi(p && q)}"),
+    ("ptlit", "*T", "&T{a: bi(p || q)}"),
+    ("pickpt", "*T", "pick(p && q, pt, &t0)"),
+    ("fnlit", "func", "func(v int) int { if p && v > 0 { return v }; return a }"),
+    ("fnnamed", "Fn", "Fn(pick(p && q, g, f0))"),
+    ("pickch", "chan", "pick(p && q, ch, nil)"),
+    ("chnamed", "Ch", "Ch(pick(p || q, ch, nil))"),
+    ("pickm", "map", "pick(p && q, m, nil)"),
+    ("seqgen", "seq", "gen(bi(p && q))"),
+    ("box", "Box", "Box[int]{v: bi(p && q)}"),
+    ("nval", "N", "N(bi(p && q))"),
+    ("iface", "I", "pick(p && q, I(t0), I(n0))"),
+    ("bytes", "[]byte", "[]byte(bs(p && q))"),
+    ("arrlit", "[4]int", "[4]int{bi(p && q), a, b, 1}"),
+    ("parr", "*[4]int", "pick(p && q, &arr, nil)"),
+]
+
+# expressions tried in every slot already in the quick tier (one or two control-flow creating forms per type);
+# the others join in the thorough tier and, in the quick tier, in rotation
+GRID_CORE = {"and", "or", "andor", "litb", "bi_and", "liti", "min", "pick", "bs_and", "lits", "picksl", "litsl", "ints", "anys",
+             "strs", "sany", "any_and", "tlit", "pickpt", "fnlit", "fnnamed", "pickch", "chnamed", "pickm", "seqgen", "box",
+             "nval", "iface", "bytes", "arrlit", "parr"}
+
+B, I_, S_ = ["bool"], ["int"], ["string"]
+SL = ["[]int", "Ints"]
+SLT = ["[]int", "Ints", "Anys", "Strs", "[]any", "[]byte"]
+ANY = ["*"]
+# (name, accepted type tags, statement template; `@` = the hole)
+GRID_SLOTS = [
+    # ---- switch
+    ("sw_const_bool", B, "switch @ {\ncase true:\n\tx0 = 1\ncase false:\n\tx0 = 2\n}"),
+    ("sw_const_bool_def", B, "switch @ {\ncase true:\n\tx0 = 1\ndefault:\n\tx0 = 3\n}"),
+    ("sw_const_int", I_ + ["N"], "switch @ {\ncase 1:\n\tx0 = 1\ncase 2, 3:\n\tx0 = 2\n\tfallthrough\ndefault:\n\tx0 = 3\n}"),
+    ("sw_const_str", S_, 'switch @ {\ncase "a":\n\tx0 = 1\ncase "b", "c":\n\tx0 = 2\n}'),
+    ("sw_const_iface", ANY, 'switch any(@) {\ncase 1:\n\tx0 = 1\ncase true:\n\tx0 = 2\ncase "a":\n\tx0 = 3\ncase nil:\n\tx0 = 4\n}'),
+    ("sw_init_const", ANY, "switch y := @; a {\ncase 1:\n\tx0 = 1\n\t_ = y\ncase 2:\n\t_ = y\n}"),
+    ("sw_init_tag", I_ + B + S_, "switch y := @; y {\ncase y:\n\tx0 = 1\n}"),
+    ("sw_dyn_tag", I_, "switch @ {\ncase a:\n\tx0 = 1\ncase b + 1, 7:\n\tx0 = 2\n\tfallthrough\ndefault:\n\tx0 = 3\n}"),
+    ("sw_dyn_case", ANY, "switch y := @; y {\ncase @:\n\tx0 = 1\n}"),
+    ("sw_dyn_case_int", I_, "switch a {\ncase 1, @, b:\n\tx0 = 1\n\tfallthrough\ncase 7:\n\tx0++\n}"),
+    ("sw_dyn_case_any", ANY, "switch e {\ncase @:\n\tx0 = 1\ncase nil:\n\tx0 = 2\n}"),
+    ("sw_tagless", B, "switch {\ncase @:\n\tx0 = 1\ncase q:\n\tx0 = 2\n\tfallthrough\ndefault:\n\tx0 = 3\n}"),
+    ("sw_tagless_2nd", B, "switch {\ncase a > 1:\n\tx0 = 1\ncase @:\n\tx0 = 2\n}"),
+    ("sw_true_tag", B, "switch true {\ncase @:\n\tx0 = 1\ndefault:\n\tx0 = 2\n}"),
+    ("tsw_init", ANY, "switch y := @; z := e.(type) {\ncase int:\n\tx0 = z\n\t_ = y\ncase string:\n\ts0 = z\ndefault:\n\t_ = z\n\t_ = y\n}"),
+    ("tsw_operand", ANY, "switch z := any(@).(type) {\ncase int:\n\tx0 = z\ncase bool:\n\tp = z\ncase string, []int:\n\ti0 = z\ncase nil:\n\tx0 = -1\ndefault:\n\t_ = z\n}"),
+    ("tsw_iface", ["I"], "switch z := @.(type) {\ncase T:\n\tt0 = z\ncase N, *T:\n\ti0 = z\n}"),
+    # ---- if / for
+    ("if_cond", B, "if @ {\n\tx0 = 1\n} else {\n\tx0 = 2\n}"),
+    ("if_cond_chain", B, "if a > 3 {\n\tx0 = 1\n} else if @ {\n\tx0 = 2\n} else {\n\tx0 = 3\n}"),
+    ("if_init", ANY, "if y := @; a > 0 {\n\t_ = y\n\tx0 = 1\n}"),
+    ("if_init_cond", B, "if y := @; y && @ {\n\tx0 = 1\n}"),
+    ("for_cond", B, "for @ {\n\tx0++\n\tif x0 > 3 {\n\t\tbreak\n\t}\n}"),
+    ("for3_init", I_, "for i := @; i < b; i++ {\n\tx0 += i\n}"),
+    ("for3_cond", I_, "for i := 0; i < @; i++ {\n\tx0 += i\n}"),
+    ("for3_condb", B, "for i := 0; @; i++ {\n\tx0 += i\n\tif i > 3 {\n\t\tbreak\n\t}\n}"),
+    ("for3_post", I_, "for i := 0; i < b; i += @ {\n\tx0 += i\n}"),
+    ("for3_esc_init", I_, "for i := @; i < b; i++ {\n\tpp = &i\n\tx0 += *pp\n}"),
+    ("for3_esc_cond", I_, "for i := 0; i < @; i++ {\n\tf0 = func(z int) int { return z + i }\n}"),
+    ("for3_esc_condb", B, "for i := 0; @ && i < b; i++ {\n\tdefer func() { x0 += i }()\n}"),
+    ("for3_esc_post", I_, "for i := 0; i < b; i += @ {\n\tGP = &i\n}"),
+    ("for3_esc_two", I_, "for i, j := @, 0; i < b; i, j = i+1, j+@ {\n\tpp = &j\n\tx0 += i\n}"),
+    ("for3_esc_cont", B, "for i := 0; i < b; i++ {\n\tif @ {\n\t\tcontinue\n\t}\n\tpp = &i\n}"),
+    ("range_kv", ANY, "for k, v := range @ {\n\t_ = k\n\t_ = v\n\tx0++\n}"),
+    ("range_k", ANY, "for k := range @ {\n\t_ = k\n\tx0++\n\tif x0 > 9 {\n\t\tbreak\n\t}\n}"),
+    ("range_none", ANY, "for range @ {\n\tx0++\n\tif x0 > 9 {\n\t\tbreak\n\t}\n}"),
+    ("range_kv_esc", SL + ["map", "string"], "for k, v := range @ {\n\tf0 = func(z int) int { _ = k; _ = v; return z }\n}"),
+    ("range_func_ret", ["seq"], "for v := range @ {\n\tif v > 2 {\n\t\treturn v, nil\n\t}\n\tx0 += v\n}"),
+    ("range_func_defer", ["seq"], "for v := range @ {\n\tdefer func() { x0 += v }()\n\tif v > a {\n\t\tbreak\n\t}\n}"),
+    ("range_body", B, "for _, v := range xs {\n\tif @ {\n\t\tcontinue\n\t}\n\tx0 += v\n}"),
+    ("rangefunc_body", B, "for v := range seq {\n\tif @ {\n\t\treturn v, nil\n\t}\n\tif v > b {\n\t\tbreak\n\t}\n}"),
+    # ---- select
+    ("sel_send_val", I_, "select {\ncase ch <- @:\n\tx0 = 1\ndefault:\n\tx0 = 2\n}"),
+    ("sel_send_chan", ["chan", "Ch"], "select {\ncase @ <- a:\n\tx0 = 1\ncase v := <-ch:\n\tx0 = v\n}"),
+    ("sel_recv_chan", ["chan", "Ch"], "select {\ncase v, ok := <-@:\n\tx0 = v\n\tq = ok\ncase ch <- 1:\n}"),
+    ("sel_recv_idx", I_, "select {\ncase v := <-chs[@]:\n\tx0 = v\ndefault:\n}"),
+    ("sel_single", ["chan", "Ch"], "select {\ncase v := <-@:\n\tx0 = v\n}"),
+    ("sel_single_send", I_, "select {\ncase ch <- @:\n}"),
+    ("sel_body", B, "select {\ncase <-ch:\n\tif @ {\n\t\tx0 = 1\n\t}\ndefault:\n\tx0 = 2\n}"),
+    ("sel_recv_assign", ["chan", "Ch"], "select {\ncase x0 = <-@:\ncase x1, q = <-ch:\n}"),
+    # ---- calls
+    ("call_arg", I_, "x0 = g(@)"),
+    ("call_arg1", I_, "x0 = add(@, b)"),
+    ("call_arg2", I_, "x0 = add(a, @)"),
+    ("call_variadic", I_, "x0 = usei(a, @, b)"),
+    ("call_variadic_any", ANY, "use(a, @, s)"),
+    ("call_spread", SLT, "x0 = usei(@...)"),
+    ("call_spread_any", SLT, "use(@...)"),
+    ("call_spread_str", SLT, "x0 = uses(@...)"),
+    ("call_spread2", SLT, "x0 = usei2(a, @...)"),
+    ("call_spread2_first", I_, "x0 = usei2(@, xs...)"),
+    ("call_method_spread", SLT, "x0 = pt.V(@...)"),
+    ("call_recv", ["T", "*T", "N", "I"], "x0 = @.M(a)"),
+    ("call_recv_ptr", ["*T"], "x0 = @.P(a)"),
+    ("call_iface_arg", I_, "x0 = it.M(@)"),
+    ("call_fnval", ["func", "Fn"], "x0 = @(a)"),
+    ("call_multi", I_, "x0, q = g3(@)"),
+    ("bi_len", ANY, "x0 = len(@)"),
+    ("bi_cap", SLT + ["chan", "Ch", "[4]int", "*[4]int"], "x0 = cap(@)"),
+    ("bi_append", I_, "sl = append(sl, @)"),
+    ("bi_append_spread", SLT, "sl = append(sl, @...)"),
+    ("bi_append_bytes", S_, "by = append(by, @...)"),
+    ("bi_copy", SLT + S_, "x0 = copy(sl, @)"),
+    ("bi_clear", SLT + ["map"], "clear(@)"),
+    ("bi_min", I_ + S_, "_ = min(@, @)"),
+    ("bi_max", I_, "x0 = max(b, @, a)"),
+    ("bi_delete", S_, "delete(m, @)"),
+    ("bi_make_len", I_, "sl = make([]int, @)"),
+    ("bi_make_cap", I_, "sl = make([]int, a, @)"),
+    ("bi_make_map", I_, "m = make(map[string]int, @)"),
+    ("bi_make_chan", I_, "ch = make(chan int, @)"),
+    ("bi_new", ANY, "_ = new(@)"),
+    ("bi_panic", ANY, "if a > 100 {\n\tpanic(@)\n}"),
+    ("bi_print", ANY, "print(@)"),
+    # ---- index / slice
+    ("idx_idx", I_, "x0 = xs[@]"),
+    ("idx_base", SLT + S_ + ["map", "[4]int", "*[4]int"], "_ = @[a&1]"),
+    ("idx_arr", I_, "x0 = arr[@]"),
+    ("idx_store", I_, "arr[@] = a"),
+    ("idx_store_sl", I_, "xs[@] = @"),
+    ("idx_map", S_, "x0 = m[@]"),
+    ("idx_map_ok", S_, "v, ok := m[@]\n_, _ = v, ok"),
+    ("idx_map_store", S_, "m[@] = a"),
+    ("idx_incdec", I_, "arr[@]++"),
+    ("idx_str", I_, "x0 = int(s[@])"),
+    ("sl2_lo", I_, "sl = xs[@:]"),
+    ("sl2_hi", I_, "sl = xs[:@]"),
+    ("sl3_lo", I_, "sl = xs[@:b:b]"),
+    ("sl3_hi", I_, "sl = xs[a:@:b]"),
+    ("sl3_max", I_, "sl = xs[a:b:@]"),
+    ("sl3_all", I_, "sl = xs[@:@:@]"),
+    ("sl3_nolo", I_, "sl = xs[:b:@]"),
+    ("sl3_base", SLT + ["[4]int", "*[4]int"], "_ = @[a:b:b]"),
+    ("sl2_base", SLT + S_ + ["[4]int", "*[4]int"], "_ = @[a:]"),
+    ("sl3_arr", I_, "sl = arr[a:b:@]"),
+    ("sl3_parr", I_, "sl = (&arr)[:@:@]"),
+    ("sl_str", I_, "s0 = s[@:]"),
+    # ---- composite literals
+    ("cl_struct_kv", I_, "t0 = T{a: @, b: b}"),
+    ("cl_struct_pos", I_, "t0 = T{@, b, s, nil, nil}"),
+    ("cl_struct_str", S_, "t0 = T{s: @}"),
+    ("cl_struct_ptr", ["*T"], "t0 = T{n: @}"),
+    ("cl_embedded", I_, "u0 = U{T: T{a: @}, k: [4]int{@, 1, 2, 3}}"),
+    ("cl_embedded_val", ["T"], "u0 = U{T: @}"),
+    ("cl_ptr", I_, "pt = &T{a: @}"),
+    ("cl_slice", I_, "_ = []int{a, @, b}"),
+    ("cl_slice_idx", I_, "sl = []int{2: @, 5: a}"),
+    ("cl_arr_full", I_, "arr = [4]int{@, a, b, 1}"),
+    ("cl_arr_part", I_, "arr = [4]int{1: @}"),
+    ("cl_arr_dots", I_, "_ = [...]int{@, @}"),
+    ("cl_map_val", I_, 'm = map[string]int{s: @, "k": a}'),
+    ("cl_map_key", S_, "m = map[string]int{@: a}"),
+    ("cl_nested_sl", I_, "_ = [][]int{{@}, {a, b}}"),
+    ("cl_nested_struct", I_, "_ = []T{{a: @}, {b: @}}"),
+    ("cl_nested_ptr", I_, "_ = []*T{{a: @}}"),
+    ("cl_nested_map", I_, '_ = map[string]T{"a": {a: @}}'),
+    ("cl_any", ANY, "_ = []any{@, a, s}"),
+    ("cl_iface", ["T", "*T", "N", "I"], "_ = []I{@}"),
+    ("cl_box", I_, "bx = Box[int]{v: @}"),
+    # ---- defer / go
+    ("defer_arg", I_, "defer g(@)"),
+    ("defer_lit", I_, "defer func(v int) { x0 += v }(@)"),
+    ("defer_method", I_, "defer pt.P(@)"),
+    ("defer_any", ANY, "defer use(@)"),
+    ("defer_spread", SLT, "defer usei(@...)"),
+    ("defer_fnval", ["func", "Fn"], "defer @(a)"),
+    ("defer_recv", ["T", "*T", "N", "I"], "defer @.M(a)"),
+    ("go_arg", I_, "go g(@)"),
+    ("go_lit", I_, "go func(v int) { _ = v }(@)"),
+    ("go_spread", SLT, "go use(@...)"),
+    ("go_fnval", ["func", "Fn"], "go @(a)"),
+    # ---- return (named results)
+    ("ret_val", I_, "if a > 50 {\n\treturn @, nil\n}"),
+    ("ret_bare", I_, "if a > 50 {\n\tr = @\n\treturn\n}"),
+    ("ret_call", I_, "if a > 50 {\n\treturn (&u0).Q()\n}\nx0 = @"),
+    # ---- assignments, operators, conversions
+    ("asg", ANY, "y := @\n_ = y"),
+    ("asg_var", ANY, "var y = @\n_ = y"),
+    ("asg_int", I_, "x0 = @"),
+    ("asg_any", ANY, "i0 = @"),
+    ("asg_any_e", ANY, "e = @"),
+    ("asg_iface", ["T", "*T", "N", "I"], "it = @"),
+    ("asg_tuple1", I_, "x0, x1 = @, x0"),
+    ("asg_tuple2", I_, "x0, x1 = x1, @"),
+    ("asg_op", I_ + S_, "y := @\ny += @"),
+    ("asg_shift", I_, "x0 <<= @"),
+    ("asg_deref", I_, "if pp != nil {\n\t*pp = @\n}"),
+    ("asg_field", I_, "t0.a = @"),
+    ("asg_pfield", I_, "pt.a = @"),
+    ("asg_fn", ["func", "Fn"], "f0 = @"),
+    ("asg_blank", ANY, "_ = @"),
+    ("asg_global", I_, "G = @"),
+    ("send", I_, "ch <- @"),
+    ("send_chan", ["chan", "Ch"], "@ <- a"),
+    ("recv_chan", ["chan", "Ch"], "x0 = <-@"),
+    ("recv_ok", ["chan", "Ch"], "v, ok := <-@\n_, _ = v, ok"),
+    ("un_neg", I_, "x0 = -@"),
+    ("un_not", B, "p = !@"),
+    ("bin_arith", I_, "x0 = a + @*b"),
+    ("bin_cmp", I_ + S_, "p = @ < @"),
+    ("bin_eq", ANY, "p = any(@) == e"),
+    ("bin_eq_self", ANY, "y := @\np = y == y"),
+    ("bin_and", B, "p = q && @"),
+    ("bin_shift", I_, "x0 = a << @"),
+    ("tassert", ANY, "x0 = any(@).(int)"),
+    ("tassert_ok", ANY, "v, ok := any(@).(I)\n_, _ = v, ok"),
+    ("addr", ANY, "y := @\npy := &y\n_ = py"),
+    ("conv_n", I_, "n0 = N(@)"),
+    ("conv_float", I_, "fl = float64(@)"),
+    ("conv_str_rune", I_, "s0 = string(rune(@))"),
+    ("conv_bytes", S_, "by = []byte(@)"),
+    ("conv_runes", S_, "_ = []rune(@)"),
+    ("conv_str", ["[]byte"], "s0 = string(@)"),
+    ("conv_any", ANY, "i0 = any(@)"),
+    ("conv_ints", SL, "_ = Ints(@)"),
+    ("conv_sl", SL, "sl = []int(@)"),
+    ("conv_fn", ["func", "Fn"], "_ = Fn(@)"),
+    ("conv_arr", SL, "if len(xs) >= 4 {\n\tarr = [4]int(@)\n}"),
+    ("conv_parr", SL, "if len(xs) >= 4 {\n\t_ = (*[4]int)(@)\n}"),
+    ("gen_id", ANY, "_ = id(@)"),
+    ("gen_first", SLT, "_ = first(@)"),
+    ("gen_sum", SLT, "_ = sum(@)"),
+    ("gen_mapf", SLT, "_ = mapf(@, func(v int) int { return v })"),
+    ("gen_mapf_fn", ["func", "Fn"], "_ = mapf(xs, @)"),
+    ("gen_box", I_, "bx.Set(@)"),
+    ("gen_conv", I_, "_ = conv[int, int64](@)"),
+    ("gen_pick", ANY, "_ = pick(p, @, @)"),
+    ("tp_conv", I_, "gy = Y(@)"),
+    ("tp_conv_back", I_, "x0 = int(gy) + @"),
+    ("tp_assert", ANY, "gx, _ = any(@).(X)"),
+    ("tp_sum", I_, "gy = sum([]Y{gy, Y(@)})"),
+    ("tp_box", ANY, "var gb Box[X]\ngb.Set(gx)\ngx = gb.Get()\n_ = @"),
+    ("tp_id", ANY, "gx = id(gx)\n_ = id(@)"),
+    ("clo_capture", ANY, "f0 = func(v int) int {\n\t_ = @\n\treturn v\n}"),
+    ("clo_call", ANY, "func() {\n\t_ = @\n}()"),
+    # ---- labels, goto
+    ("goto_back", I_, "L:\n\tx0++\n\tif x0 < @ {\n\t\tgoto L\n\t}"),
+    ("goto_fwd", B, "if @ {\n\tgoto L1\n}\nx0 = 1\nL1:\n\tx0++"),
+    ("goto_irred", B, "if @ {\n\tgoto L3\n}\nL2:\n\tx0++\nL3:\n\tx1++\n\tif x1 < b && @ {\n\t\tgoto L2\n\t}"),
+    ("lab_cont", B, "L:\n\tfor i := 0; i < b; i++ {\n\t\tfor j := range xs {\n\t\t\tif @ {\n\t\t\t\tcontinue L\n\t\t\t}\n\t\t\tif j > i {\n\t\t\t\tbreak L\n\t\t\t}\n\t\t}\n\t}"),
+    ("lab_break_sw", B, "L:\n\tswitch a {\n\tcase 1:\n\t\tif @ {\n\t\t\tbreak L\n\t\t}\n\t\tx0 = 1\n\t\tfallthrough\n\tcase 2:\n\t\tx0++\n\t}"),
+    ("lab_break_sel", B, "L:\n\tselect {\n\tcase <-ch:\n\t\tif @ {\n\t\t\tbreak L\n\t\t}\n\t\tx0 = 1\n\tdefault:\n\t}"),
+]
+
+# (name, function kind, wrapper with `$S` = the statement); kinds: plain / generic / method
+GRID_CTXS = [
+    ("plain", "plain", "$S"),
+    ("if", "plain", "if a > 0 {\n$S\n} else {\n\tx1 = 2\n}"),
+    ("else", "plain", "if a > 0 {\n\tx1 = 1\n} else {\n$S\n}"),
+    ("for3esc", "plain", "for ii := 0; ii < b; ii++ {\n\tpp = &ii\n$S\n}"),
+    ("rangefunc", "plain", "for vv := range seq {\n\tx1 = vv\n$S\n\tif vv > 2 {\n\t\tbreak\n\t}\n}"),
+    ("rangefunc_defer", "plain", "for vv := range seq {\n\tdefer func() { x1 += vv }()\n$S\n}"),
+    ("closure", "plain", "func() {\n$S\n}()"),
+    ("swcase", "plain", "switch a {\ncase 1:\n$S\n\tfallthrough\ncase 2:\n\tx1++\ndefault:\n}"),
+    ("goto", "plain", "if a > 0 {\n\tgoto L9\n}\nx1 = 1\nL9:\n$S\nif x1 < 0 {\n\tgoto L9\n}"),
+    ("select", "plain", "select {\ncase vv := <-ch:\n\tx1 = vv\n$S\ndefault:\n}"),
+    ("recover", "plain", "defer func() {\n\tif vv := recover(); vv != nil {\n\t\tr = -1\n\t}\n}()\n$S"),
+    ("tswitch", "plain", "switch zz := e.(type) {\ncase int:\n\tx1 = zz\n$S\ndefault:\n}"),
+    ("labloop", "plain", "L8:\n\tfor x1 < 10 {\n\t\tx1++\n\t\tfor range 2 {\n$S\n\t\t\tif p {\n\t\t\t\tcontinue L8\n\t\t\t}\n\t\t\tbreak L8\n\t\t}\n\t}"),
+    ("generic", "generic", "$S"),
+    ("method", "method", "$S"),
+]
+
+
+def grid_accepts(slot_tags, etag):
+    return "*" in slot_tags or etag in slot_tags
+
+
+GRID_LIT = {"anys", "strs", "sany", "tlit", "ptlit", "box", "arrlit", "fnlit"}    # composite / function literals: always parenthesised
+GRID_OPER = {"and", "or", "andor", "nand", "cmpand", "bi_or", "recv"}              # operator expressions: bare where the hole is delimited
+
+
+def grid_fill(tmpl, ename, etext):
+    """substitute the expression for every hole; parenthesise where the grammar needs it (a composite literal in
+    a statement header, an operator expression next to a selector / call / index / unary operator)"""
+    out, i = [], 0
+    while True:
+        j = tmpl.find("@", i)
+        if j < 0:
+            out.append(tmpl[i:])
+            return "".join(out)
+        before = tmpl[j - 1] if j > 0 else " "
+        after = tmpl[j + 1] if j + 1 < len(tmpl) else " "
+        delimited = after not in ".([" and before not in "-!<&*^+"
+        bare = ename not in GRID_LIT and (ename not in GRID_OPER or delimited)
+        out.append(tmpl[i:j] + (etext if bare else "(" + etext + ")"))
+        i = j + 1
+
+
+GRID_PARAMS = [("a", "int"), ("b", "int"), ("p", "bool"), ("q", "bool"), ("s", "string"), ("xs", "[]int"), ("m", "map[string]int"),
+               ("ch", "chan int"), ("e", "any"), ("pt", "*T"), ("seq", "func(func(int) bool)")]
+GRID_ZERO = {"int": "1", "bool": "true", "string": '"s"'}
+_WORD = re.compile(r"[A-Za-z_][A-Za-z_0-9]*")
+
+
+def grid_function(name, slot, expr, gctx):
+    """(text of one candidate function, text of its caller or None); only the parameters and locals the body
+    mentions are declared, so that the candidates stay small"""
+    sname, _, tmpl = slot
+    ename, _, etext = expr
+    cname, kind, wrap = gctx
+    stmt = grid_fill(tmpl, ename, etext)
+    body = wrap.replace("$S", "\n".join("\t" + l for l in stmt.split("\n")))
+    words = set(_WORD.findall(body))
+    params = [(v, ty) for v, ty in GRID_PARAMS if v in words]
+    locs = [(v, ty) for v, ty in GRID_LOCALS if v in words]
+    recv = "(rc *U) " if kind == "method" else ""
+    tparams = "[X any, Y Num]" if kind == "generic" else ""
+    out = ["// slot=%s expr=%s ctx=%s" % (sname, ename, cname),
+           "func %s%s%s(%s) (r int, err error) {" % (recv, name, tparams, ", ".join("%s %s" % pv for pv in params))]
+    for v, ty in locs:
+        out.append("\tvar %s %s" % (v, ty))
+    if kind == "generic":
+        out += ["\tvar gx X", "\tvar gy Y", "\t_, _ = gx, gy"]
+    if kind == "method":
+        out += ["\tr = rc.a"]
+    out += ["\t" + l for l in body.split("\n")]
+    if locs:
+        out.append("\tuse(%s)" % ", ".join(v for v, _ in locs))
+    out += ["\treturn r, err", "}"]
+    caller = None
+    if kind == "generic":
+        args = ", ".join(GRID_ZERO.get(ty, "nil") for _, ty in params)
+        caller = "func c_%s() {\n\t%s[string, int](%s)\n\t%s[*T, N](%s)\n}" % (name, name, args, name, args)
+    return "\n".join(out), caller
+
+
+def grid_candidates(rng, full):
+    """list of (slot, expr, ctx) index triples.
+    thorough (full): the complete product slot x expression (accepted by tag) x context.
+    quick: every core expression in every slot (plain context); every other expression in every slot for a
+    third of the slots; every slot in every context for a third of the slots (expression in rotation); every
+    expression in every context (slot in rotation).  The thirds and rotations are chosen by the seed, so three
+    seeds cover all pairs."""
+    ok = {si: [ei for ei, e in enumerate(GRID_EXPRS) if grid_accepts(s[1], e[1])] for si, s in enumerate(GRID_SLOTS)}
+    cands = []
+    if full:
+        for ci in range(len(GRID_CTXS)):
+            for si in range(len(GRID_SLOTS)):
+                for ei in ok[si]:
+                    cands.append((si, ei, ci))
+        return cands
+    off = rng.below(1 << 20)
+    seen = set()
+
+    def add(c):
+        if c not in seen:
+            seen.add(c)
+            cands.append(c)
+    for si in range(len(GRID_SLOTS)):
+        for ei in ok[si]:
+            if GRID_EXPRS[ei][0] in GRID_CORE or (si + off) % 3 == 0:
+                add((si, ei, 0))
+    for ci in range(1, len(GRID_CTXS)):
+        for si in range(len(GRID_SLOTS)):
+            if (si + ci + off) % 3 == 0:
+                es = ok[si]
+                add((si, es[(off + si + ci) % len(es)], ci))
+        for ei in range(len(GRID_EXPRS)):
+            ss = [si for si in range(len(GRID_SLOTS)) if ei in ok[si]]
+            add((ss[(off + ei + ci) % len(ss)], ei, ci))
+    return cands
+
+
+def grid_files(cands, per_file):
+    """[(file text, {function name: (triple, text)})]"""
+    files = []
+    for k in range(0, len(cands), per_file):
+        fns, calls, table = [], [], {}
+        for j, (si, ei, ci) in enumerate(cands[k:k + per_file]):
+            name = "k%d" % (k + j)
+            text, caller = grid_function(name, GRID_SLOTS[si], GRID_EXPRS[ei], GRID_CTXS[ci])
+            fns.append(text)
+            table[name] = ((si, ei, ci), text)
+            if caller:
+                calls.append(caller)
+        files.append((GRID_PRELUDE + "\n" + "\n\n".join(fns + calls) + "\n", table))
+    return files
+
+
 # ======================================================================= running dump | validator
+GRID_NAME = re.compile(r"\.(k\d+)(?:[\[$]|$)")
+
+
+def grid_caller_of(text):
+    """the caller that instantiates a generic grid candidate (recomputed from its header)"""
+    m = re.search(r"^func (k\d+)\[X any, Y Num\]\((.*?)\) \(r int", text, re.M)
+    if not m:
+        return None
+    args = ", ".join(GRID_ZERO.get(p.split(" ", 1)[1], "nil") for p in m.group(2).split(", ") if p)
+    return "func c_%s() {\n\t%s[string, int](%s)\n\t%s[*T, N](%s)\n}\n" % (m.group(1), m.group(1), args, m.group(1), args)
+
+
 AWK = r'''/^C /{ i = index($0, " chk "); print substr($0, i + 1); next } { print > META }'''
 PANIC_RE = re.compile(r"^(panic: |fatal error: |goroutine \d+ \[)", re.M)
 
@@ -586,11 +1118,15 @@ def next_id():
 class Job:
     """one run of c02dump piped into c02driver"""
 
-    def __init__(self, origin, kind, items, modes, dir=None, texts=None):
+    def __init__(self, origin, kind, items, modes, dir=None, texts=None, tables=None):
         self.origin, self.kind, self.items, self.modes, self.dir, self.texts = origin, kind, list(items), list(modes), dir, texts or {}
+        # kind "funcs": file -> {candidate function name: ((slot, expr, ctx), text)}
+        self.tables = tables or {}
 
     def args(self, extra=()):
         a = ["-modes", ",".join(self.modes)] + list(extra)
+        if self.kind == "funcs":
+            return a + ["-funcs"] + self.items
         if self.kind == "src":
             return a + ["-src"] + self.items
         return a + ["-dir", self.dir, "-pkgs"] + self.items
@@ -602,7 +1138,9 @@ class Runner:
         self.driver = vlib.driver_path("C02")
         self.stats = {"functions": 0, "nontrivial": 0, "instructions": 0, "phis": 0, "cross_block_uses": 0,
                       "typed_instructions": 0, "packages": 0, "max_blocks": 0, "max_instrs": 0, "unreachable_blocks": 0,
-                      "functions_with_unreachable_blocks": 0}
+                      "functions_with_unreachable_blocks": 0, "dom_sets_failed_recheck": 0, "instructions_operands_reordered": 0}
+        self.grid_dropped = {}   # (file, function) -> first type error
+        self.grid_built = set()  # (file, function)
         self.by_mode = {}
         self.by_origin = {}
         self.skipped = []
@@ -649,6 +1187,9 @@ class Runner:
         crashed = res["hung"] or (res["rc"] != 0 and PANIC_RE.search(res["err"]))
         if res["rc"] != 0 and not crashed:
             raise vlib.HarnessError("c02dump|c02driver failed (rc=%s) for %s %s: %s" % (res["rc"], job.origin, job.items[:3], res["err"][-2000:]))
+        if crashed and job.kind == "funcs":
+            self.bisect_funcs(job, timeout)
+            return
         if crashed:
             if len(job.items) > 1 or len(job.modes) > 1:
                 # attribute: every item alone, every mode alone, serially where the mode allows
@@ -669,10 +1210,46 @@ class Runner:
             return
         self.account(job, res, sanity)
 
+    def bisect_funcs(self, job, timeout):
+        """a builder panic / hang while building grid candidates: find single candidate functions (and the mode)
+        that reproduce it, by halving the list of candidates of each file"""
+        found = 0
+        for it in job.items:
+            table = job.tables.get(it, {})
+            for m in job.modes:
+                work = [sorted(table, key=lambda n: int(n[1:]))]
+                while work and found < 4:
+                    names = work.pop()
+                    src = GRID_PRELUDE + "\n" + "\n\n".join(table[n][1] + "\n" + (grid_caller_of(table[n][1]) or "") for n in names) + "\n"
+                    p = self.ctx.path("run", "bis%06d.go" % next_id())
+                    open(p, "w").write(src)
+                    sub = Job(job.origin, "funcs", [p], [m], None, {p: src}, {p: {n: table[n] for n in names}})
+                    r2 = self.pipeline(sub, timeout)
+                    bad = r2["hung"] or (r2["rc"] != 0 and PANIC_RE.search(r2["err"])) or "builder panic" in "".join(
+                        unhex(l.split(" ")[3]) for l in r2["meta"].splitlines() if l.startswith("X "))
+                    if not bad:
+                        if len(names) == len(table):
+                            self.account(sub, r2)
+                        continue
+                    if len(names) == 1:
+                        (si, ei, ci), _ = table[names[0]]
+                        if r2["rc"] == 0 and not r2["hung"]:
+                            self.account(sub, r2)      # records the X "builder panic" as a crash
+                            self.crashes[-1]["grid"] = {"slot": GRID_SLOTS[si][0], "expr": GRID_EXPRS[ei][0], "ctx": GRID_CTXS[ci][0]}
+                        else:
+                            self.crash(sub, r2, note="grid slot=%s expr=%s ctx=%s" % (GRID_SLOTS[si][0], GRID_EXPRS[ei][0], GRID_CTXS[ci][0]))
+                        found += 1
+                    else:
+                        h = len(names) // 2
+                        work += [names[h:], names[:h]]
+        if not found:
+            self.crashes.append({"origin": job.origin, "kind": "panic", "items": job.items[:5], "modes": job.modes, "stderr": "",
+                                 "note": "crash of the whole grid job not reproducible on its parts", "source": None})
+
     def crash(self, job, res, note=""):
         self.crashes.append({"origin": job.origin, "kind": "hang" if res["hung"] else "panic", "items": job.items[:5],
                              "modes": job.modes, "stderr": res["err"][-8000:], "note": note,
-                             "source": job.texts.get(job.items[0]) if job.kind == "src" else None})
+                             "source": job.texts.get(job.items[0]) if job.kind in ("src", "funcs") else None})
 
     def account(self, job, res, sanity=False):
         pkgs, funcs = {}, []
@@ -687,10 +1264,14 @@ class Runner:
                     self.crashes.append({"origin": job.origin, "kind": "sanity-panic" if "SanityCheck failed" in msg else "panic",
                                          "items": job.items[:5], "modes": [mode], "stderr": msg[:8000] + "\n--- stderr\n" + res["err"][-6000:],
                                          "note": "", "source": job.texts.get(job.items[0]) if job.kind == "src" and len(job.items) == 1 else None})
-                elif job.kind == "src":
+                elif job.kind in ("src", "funcs"):
                     raise vlib.HarnessError("generated/corpus program rejected (%s): %s" % (pk["file"] or pk["path"], msg[:500]))
                 else:
                     self.skipped.append("%s: %s" % (pk["path"], msg[:120]))
+            elif t[0] == "D":
+                pk = pkgs.get(int(t[1]), {"path": "?", "file": ""})
+                if not unhex(t[2]).startswith("c_"):
+                    self.grid_dropped[(pk["file"], unhex(t[2]))] = unhex(t[3])[:160]
             elif t[0] == "F":
                 funcs.append({"pid": int(t[2]), "name": unhex(t[3]), "mode": t[4], "nb": int(t[5]), "ni": int(t[6]),
                               "synthetic": unhex(t[7])})
@@ -714,6 +1295,8 @@ class Runner:
             st["cross_block_uses"] += int(kv.get("xuse", 0))
             st["typed_instructions"] += int(kv.get("typed", 0))
             st["unreachable_blocks"] += int(kv.get("unreach", 0))
+            st["dom_sets_failed_recheck"] += int(kv.get("vetbad", 0))
+            st["instructions_operands_reordered"] += int(kv.get("reordered", 0))
             st["functions_with_unreachable_blocks"] += 1 if int(kv.get("unreach", 0)) else 0
             st["max_blocks"] = max(st["max_blocks"], nb)
             st["max_instrs"] = max(st["max_instrs"], ni)
@@ -724,16 +1307,24 @@ class Runner:
                     if len(self.samples) < 2 and int(kv.get("phi", 0)) >= 1:
                         self.samples.append({"origin": job.origin, "function": f["name"], "mode": f["mode"], "verdict": head[:200],
                                              "package_or_file": (pkgs.get(f["pid"]) or {}).get("path", "")})
-            if verdict == "fail:dom-sets":
-                raise vlib.HarnessError("c02driver: the unverified reachability helper produced a set that fails its re-check "
-                                        "(validator defect, not a finding): %s mode %s" % (f["name"], f["mode"]))
+            gm = GRID_NAME.search(f["name"]) if job.kind == "funcs" else None
+            pk = pkgs.get(f["pid"], {"path": "", "file": ""})
+            if gm:
+                self.grid_built.add((pk["file"], gm.group(1)))
             if verdict != "ok":
-                pk = pkgs.get(f["pid"], {"path": "", "file": ""})
-                self.failures.append({"origin": job.origin, "package": pk["path"], "file": pk["file"], "function": f["name"],
-                                      "mode": f["mode"], "synthetic": f["synthetic"], "blocks": nb, "instrs": ni,
-                                      "clauses": verdict.split(":", 1)[-1], "details": head.partition(" | ")[2][:3000],
-                                      "source": job.texts.get(pk["file"]), "kind": job.kind, "dir": job.dir,
-                                      "item": pk["file"] if job.kind == "src" else pk["path"]})
+                x = {"origin": job.origin, "package": pk["path"], "file": pk["file"], "function": f["name"],
+                     "mode": f["mode"], "synthetic": f["synthetic"], "blocks": nb, "instrs": ni,
+                     "clauses": verdict.split(":", 1)[-1], "details": head.partition(" | ")[2][:3000],
+                     "source": job.texts.get(pk["file"]), "kind": job.kind, "dir": job.dir,
+                     "item": pk["file"] if job.kind in ("src", "funcs") else pk["path"]}
+                ent = job.tables.get(pk["file"], {}).get(gm.group(1)) if gm else None
+                if ent:
+                    # a grid candidate is self-contained: the replay carries the prelude and this one function
+                    (si, ei, ci), text = ent
+                    x["source"] = GRID_PRELUDE + "\n" + text + "\n" + (grid_caller_of(text) or "")
+                    x["grid"] = {"slot": GRID_SLOTS[si][0], "expr": GRID_EXPRS[ei][0], "ctx": GRID_CTXS[ci][0]}
+                    x["kind"] = "src"
+                self.failures.append(x)
 
     # ---- enrich a failure with the IR text and the case line (re-dump of the one item)
     def enrich(self, f):
@@ -907,6 +1498,8 @@ def run(ctx):
     rng = vlib.SplitMix(ctx.seed).fork("c02/modes")
     workers = 6 if quick else 8
 
+    grid_info = {}
+
     def explore():
         nonlocal hist
         jobs = []
@@ -929,6 +1522,23 @@ def run(ctx):
             tx = {p: texts[p] for p in group}
             for ms in chunks(ALL_MODES, 8):
                 jobs.append(Job("generated", "src", group, ms, None, tx))
+        # 3b. the exhaustive grid: control-flow creating expression x operand slot x surrounding context
+        gr = vlib.SplitMix(ctx.seed).fork("c02/grid")
+        cands = grid_candidates(gr, not quick)
+        gfiles = grid_files(cands, 250)
+        gmodes = ["-", "N", "DG", "NDGL"] if quick else ALL_MODES
+        gpaths, gtexts, gtables = [], {}, {}
+        for i, (text, table) in enumerate(gfiles):
+            p = ctx.path("gen", "grid", "q%04d.go" % i)
+            with open(p, "w") as fh:
+                fh.write(text)
+            gpaths.append(p)
+            gtexts[p] = text
+            gtables[p] = table
+        grid_info.update({"candidates": len(cands), "files": len(gpaths), "modes": gmodes, "tables": gtables})
+        for group in chunks(gpaths, 3 if quick else 4):
+            for ms in chunks(gmodes, 4 if quick else 8):
+                jobs.append(Job("grid", "funcs", group, ms, None, {p: gtexts[p] for p in group}, {p: gtables[p] for p in group}))
         # 4. real packages
         tds = list_testdata(vlib.REPO)
         if quick:
@@ -1041,7 +1651,10 @@ def run(ctx):
         "max_blocks": st["max_blocks"], "max_instructions": st["max_instrs"],
         "jobs": njobs[0], "sanity_jobs": njobs[1],
         "generator_histogram": dict(sorted(hist.items())),
-        "kinds_without_typing_row": "Jump Unreachable RunDefers DebugRef BlankStore CompositeValue ConstantSwitch".split(),
+        "grid": grid_coverage(grid_info, R),
+        "kinds_without_typing_row": [],
+        "dom_sets_failed_recheck": st["dom_sets_failed_recheck"],
+        "instructions_whose_operands_and_fields_agree_only_as_multisets": st["instructions_operands_reordered"],
         "samples": R.samples,
     })
     ctx.assumptions += [
@@ -1050,7 +1663,11 @@ def run(ctx):
         "seeded generator incl. goto-built irreducible CFGs with escaping locals, repository / std / testdata packages), not proved",
         "harness/cmd/c02dump (exported go/ir API -> records; types.Identical classes via x/tools typeutil.Map; core types via "
         "honnef.co/go/tools/go/types/typeutil.CoreType; type entries deeper than 6 levels are not expanded) and the awk split of the dump are trusted",
-        "completeness of wfCheck is not proved: a rejected function is confirmed on the dump (the replay carries the offending use/def and the IR text)",
+        "the validator decides WF (wfCheck_iff): a rejected function violates a clause of WF as stated in Spec.lean; whether WF over-demands is "
+        "a question about Spec.lean / the typing table, calibrated on the unchanged tree (the replay carries the offending instruction and the IR text)",
+        "Instruction.Operands() is not trusted: the dump also enumerates the ir.Value-holding fields of every instruction struct by reflection "
+        "(static field types ir.Value / concrete Value pointers / slices of those / slices of go/ir structs) and WF requires both to agree",
+        "a Function.Locals entry that is in no block is a violation in lifted form only (naive form: forStmtGo122 leaves the fused copy for lift to remove)",
         "reading: dominance is taken over Succs plus a virtual edge entry -> Recover (the Recover block is entered only after a panic inside the function); "
         "uses in blocks unreachable from the entry are vacuously dominated (coverage.blocks_unreachable_from_entry counts them; "
         "deleteUnreachableBlocks removes such blocks)",
@@ -1110,13 +1727,49 @@ def run(ctx):
     return vlib.finish(ctx, "translation_validation")
 
 
+def grid_coverage(gi, R):
+    """what the exhaustive grid covered: candidates, how many the type checker discarded, per coordinate"""
+    if not gi:
+        return {}
+    per = {"slot": {}, "expr": {}, "ctx": {}}
+    built = dropped = 0
+    pairs = set()
+    for p, table in gi["tables"].items():
+        for name, ((si, ei, ci), _) in table.items():
+            ok = (p, name) in R.grid_built
+            if ok:
+                built += 1
+                pairs.add(("se", si, ei))
+                pairs.add(("sc", si, ci))
+                pairs.add(("ec", ei, ci))
+            elif (p, name) in R.grid_dropped:
+                dropped += 1
+            for k, nm in (("slot", GRID_SLOTS[si][0]), ("expr", GRID_EXPRS[ei][0]), ("ctx", GRID_CTXS[ci][0])):
+                c = per[k].setdefault(nm, [0, 0])
+                c[0] += 1
+                c[1] += 1 if ok else 0
+    return {"candidates": gi["candidates"], "files": gi["files"], "modes": gi["modes"],
+            "type_correct_and_built": built, "discarded_by_the_type_checker": dropped,
+            "slots": len(GRID_SLOTS), "expressions": len(GRID_EXPRS), "contexts": len(GRID_CTXS),
+            "slot_expr_pairs_built": sum(1 for x in pairs if x[0] == "se"),
+            "slot_ctx_pairs_built": sum(1 for x in pairs if x[0] == "sc"),
+            "expr_ctx_pairs_built": sum(1 for x in pairs if x[0] == "ec"),
+            "slots_with_no_type_correct_candidate_in_this_run": sorted(k for k, v in per["slot"].items() if v[1] == 0),
+            "built_per_context": {k: v[1] for k, v in sorted(per["ctx"].items())},
+            "built_per_expression": {k: v[1] for k, v in sorted(per["expr"].items())},
+            "sample_discards": sorted(set(R.grid_dropped.values()))[:8]}
+
+
 def merge(R, r2):
     a, b = R.stats, r2.stats
     for k in ("functions", "nontrivial", "instructions", "phis", "cross_block_uses", "typed_instructions", "packages",
-              "unreachable_blocks", "functions_with_unreachable_blocks"):
+              "unreachable_blocks", "functions_with_unreachable_blocks", "dom_sets_failed_recheck",
+              "instructions_operands_reordered"):
         a[k] += b[k]
     for k in ("max_blocks", "max_instrs"):
         a[k] = max(a[k], b[k])
+    R.grid_dropped.update(r2.grid_dropped)
+    R.grid_built |= r2.grid_built
     for k, v in r2.by_mode.items():
         R.by_mode[k] = R.by_mode.get(k, 0) + v
     for k, v in r2.by_origin.items():
@@ -1134,28 +1787,39 @@ def merge(R, r2):
 
 META = {
     "level": "translation_validation",
-    "technique": "Lean 4 verified validator: declarative WF spec (path-quantified dominance from C14's Dom.lean, multiset CFG inverse, "
-                 "relational def-use inverse, terminators/phis, table-driven typing rules) + proved soundness of the compiled checker, run on "
-                 "the dump of every function the real go/ir builder produces under all 16 combinations of NaiveForm/GlobalDebug/"
-                 "InstantiateGenerics/BuildSerially",
-    "text": "wfCheck_sound: for EVERY dump (any CFG, any size) wfCheck f = true implies WF f, where WF states: Blocks[i].Index = i, no empty "
-            "block, instr.Block() correct, IDs distinct; Preds/Succs inverse as multisets; one terminator per block, last, arity = len(Succs) "
-            "(Jump 1, If 2, Return/Panic/Unreachable 0, ConstantSwitch n); phis lead, one non-nil operand per predecessor, no duplicate "
-            "predecessor under a phi; every operand is a legitimate non-instruction value or a value-defining instruction that is earlier in "
-            "the same block or whose block lies on ALL control-flow paths from the entry to the use (phi operand k: to predecessor k); "
-            "Referrers defined exactly for instructions-values/params/freevars/anon funcs and inverse to Operands; 39 instruction kinds obey "
-            "their typing row. Corollaries def_on_every_path / phi_def_on_every_path / cfg_exact / refs_exact restate the clauses with explicit "
-            "paths and counts. The quantifier over programs and modes is explored: corpus, go/ir testdata, seeded generator (goto-built "
-            "irreducible CFGs, escaping locals, closures, generics, range-over-func, defer/recover, select), repository, std and testdata "
-            "packages (quick: sample; thorough: all), plus builds with SanityCheckFunctions on (no panic).",
+    "technique": "Lean 4 verified validator that DECIDES a declarative WF spec (path-quantified dominance from C14's Dom.lean, multiset CFG "
+                 "inverse, relational def-use inverse, terminators/phis, typing table with a row for all 46 instruction kinds, "
+                 "Operands() = struct fields, Params/FreeVars/Locals vs signature), run on the dump of every function the real go/ir "
+                 "builder produces under all 16 combinations of NaiveForm/GlobalDebug/InstantiateGenerics/BuildSerially; inputs: corpus, "
+                 "go/ir testdata, seeded random generator, an exhaustive statement-slot x expression x context grid, real packages",
+    "text": "wfCheck_iff: for EVERY dump (any CFG, any size) wfCheck f = true <-> WF f (wfCheck_sound / wfCheck_complete), where WF states: "
+            "Blocks[i].Index = i, no empty block, instr.Block() correct, IDs distinct; Preds/Succs inverse as multisets; one terminator per "
+            "block, last, arity = len(Succs); phis lead, one non-nil operand per predecessor; every operand is a legitimate non-instruction "
+            "value or a value-defining instruction that is earlier in the same block or whose block lies on ALL control-flow paths from the "
+            "entry to the use (phi operand k: to predecessor k); Referrers defined exactly for value instructions/params/freevars/anon funcs "
+            "and inverse to Operands; every instruction obeys the typing row of its kind (all 46 kinds; ChangeType/Convert per their "
+            "documentation, ConstantSwitch conds = constants of the tag type with at most one nil, CompositeValue one operand of the exact "
+            "type per field/element); operands_complete: Instruction.Operands() equals, as a multiset, the ir.Value-holding fields of the "
+            "instruction's struct (enumerated by reflection, independently of the method - referrer building, lifting and sanity.go all trust "
+            "Operands()); func_ok: Params = receiver + Signature parameters (count, order, types), FreeVars and Locals consistent. "
+            "Corollaries def_on_every_path / phi_def_on_every_path / field_operand_checked / field_operand_legit / params_match_signature / "
+            "cfg_exact / refs_exact. domX_iff: the dominance test is exact for any output of the unverified search (every candidate set is "
+            "re-checked before use). msort_sorted / msort_canon / canonSet_eq_iff: the sorting helpers are verified, so the sort-based "
+            "clauses are exact. The quantifier over programs and modes is explored: corpus (incl. the regression for fix 2d9a422), go/ir "
+            "testdata, seeded generator (goto-built irreducible CFGs, escaping locals, closures, generics, range-over-func, defer/recover, "
+            "select), an exhaustive grid of 203 operand slots of statement forms x 44 control-flow-creating / conversion-relevant "
+            "expressions x 15 surrounding contexts whose candidates are type-checked in-process (ill-typed ones dropped and counted; "
+            "quick: all core pairs + rotating contexts, thorough: full product), repository, std and testdata packages (quick: sample; "
+            "thorough: all), plus builds with SanityCheckFunctions on (no panic).",
     "note": "Trusted: Lean kernel (axioms propext/Quot.sound/Classical.choice), compiled c02driver, harness/cmd/c02dump + internal/c02ir "
-            "(exported API -> records, types.Identical classes, CoreType), awk/python plumbing. Proved besides soundness: the dominance test is "
-            "exact (domX_iff), partial completeness for the decide-based clauses (wfCheck_complete_partial), the typing table is total over the "
-            "model's 46 instruction kinds (allKinds_complete; the kinds are compared with the types of go/ir that implement ir.Instruction on "
-            "every run). Not proved: completeness of the three sort-based clauses; the quantifier over programs/modes (explored); typing rows for "
-            "ChangeType/Convert are shape checks only; no row for Jump/Unreachable/RunDefers/DebugRef/BlankStore/CompositeValue/ConstantSwitch. "
-            "Readings: dominance over Succs + virtual edge entry->Recover; Operands/Referrers inverse as relations (duplicates documented as "
-            "unspecified); TypeSwitch is a value instruction in this tree. Shares no code with go/ir/sanity.go. Unchanged tree: no violation "
-            "(963 k function dumps in the thorough tier).",
+            "(exported API + reflection over instruction struct types -> records, types.Identical classes, CoreType), awk/python plumbing. "
+            "Not proved: the quantifier over programs/modes (explored; the grid is exhaustive only over its own slot/expression/context "
+            "lists). Approximations: the ChangeType row compares underlying types up to struct tags structurally to depth 4 and accepts "
+            "type-parameter cases wholesale; a Locals entry that is in no block is rejected in lifted form only (naive form keeps the fused "
+            "Go 1.22 loop-variable copy by design). Readings: dominance over Succs + virtual edge entry->Recover; Operands/Referrers "
+            "inverse as relations (duplicates documented as unspecified); TypeSwitch is a value instruction in this tree. Shares no code "
+            "with go/ir/sanity.go. Genuine defect fixed: switchStmt emitted the ConstantSwitch into the block current before the tag was "
+            "evaluated (2d9a422, found by an outside reader; the grid now covers the shape in every statement form). Seeded C02-1-1 "
+            "(Slice.Operands forgets Max), C02-1-2, C02-1-3 are reported. Thorough tier not re-measured after the strengthening pass.",
     "design_ref": "DESIGN.md section 5, C02; Appendix A",
 }
